@@ -15,11 +15,13 @@ Final(e) == Run(InitRes, e.hist)
 Verdict(e) ==
   IF \E r \in DOMAIN e.errs : e.has[r] # (Len(e.errs[r]) > 0)
   THEN "FAIL:has_errors_disagrees_with_get_errors:"
-  ELSE IF \E r \in DOMAIN e.errs : ~e.shown[r] THEN "FAIL:repr_hides_or_invents_errors:"
-  ELSE IF ~e.chain THEN "FAIL:add_does_not_return_the_result:"
   ELSE "OK"
 
+\* (repr showing the errors and add_* returning the result itself are what the class does today;
+\* no listed property speaks of them)
 Drift(e) ==
+  \/ \E r \in DOMAIN e.errs : ~e.shown[r]
+  \/ ~e.chain
   \/ Len(e.errs) # Len(Final(e).results)
   \/ \E r \in DOMAIN e.errs : r <= Len(Final(e).results) /\ e.errs[r] # ErrorsOf(Final(e), r)
 
